@@ -4,7 +4,7 @@ from hypothesis import strategies as st
 
 import pytenet as ptn
 from core import Part, require
-from gen_dyn import ham_and_state, build_ham, dense_ham, dense_state, sector_mask
+from gen_dyn import ham_and_state, build_ham, dense_ham, dense_state, sector_mask, gauge_edit
 from gen_qn import build_mps
 from oracle_dense import mps_mask_violation
 
@@ -84,7 +84,11 @@ def check_tdvp(case, rec):
             diff=float(np.linalg.norm(vs - sgn * v1)))
     if case['second_call']:
         expect = 1.0
-        if case.get('edit_between'):
+        if case.get('edit_between') == 'gauge':
+            # same state in a different gauge: the second call must canonicalise it itself
+            if gauge_edit(psi, case['psi']['seed']):
+                rec.label('gauge_change_between_calls')
+        elif case.get('edit_between'):
             # user-style edit between the calls: the second call must see the current tensors (norm 2)
             k = case['psi']['seed'] % L
             psi.A[k] = 2.0 * psi.A[k]
@@ -106,7 +110,7 @@ def gen_tdvp(draw, tier):
     c['iters'] = draw(st.sampled_from([3, 1, 2, 4, 5, 6, 8]))
     c['scale'] = draw(st.sampled_from([4.0, 0.25, -2.0, 1024.0]))   # powers of two: the scaling is exact in floating point
     c['second_call'] = draw(st.booleans())
-    c['edit_between'] = draw(st.booleans())
+    c['edit_between'] = draw(st.sampled_from([False, True, 'gauge']))
     return c
 
 
